@@ -127,7 +127,7 @@ func runFromPath(c Case, hook Hook) GoOut {
 			return out
 		}
 	}
-	errs := ms.Process()
+	errs := ProcessRuns(c, ms)
 	// files found on the path are known to goyang under their full path: positions are
 	// compared under the bare file name, as for texts handed over directly
 	bare := make([]error, len(errs))
@@ -277,6 +277,86 @@ func loadedCase(c Case, loaded []string) *Case {
 	return &c2
 }
 
+// ProcessRuns performs the Process call(s) of a case and returns the errors of the LAST one.
+// Extra["runs"] (opt-in; default one Process) names what the caller does on the same Modules
+// value before that last run; every Process run is specified to start from a clean slate, so the
+// last run must be what a single run on a fresh value gives, and its trees must be proper trees:
+//
+//	"pp"   Process, Process
+//	"pcp"  Process, ClearEntryCache, Process
+//	"prp"  Process, reads (ToEntry of every (sub)module, GetErrors, a walk with Path / Namespace /
+//	       InstantiatingModule / ReadOnly and Find of every rpc's input and output, which creates
+//	       them lazily), Process
+//	"pctp" Process, ClearEntryCache, ToEntry of every (sub)module (lazy rebuild from the AST) and the
+//	       same reads, Process
+//	"pop"  Process under the opposite ParseOptions, then the case's options, AddPath of a directory
+//	       that does not exist, Process
+//	"pgp"  Process, GetModule of every module (which calls Process itself), ClearEntryCache, Process
+func ProcessRuns(c Case, ms *yang.Modules) []error {
+	reads := func() {
+		seen := map[*yang.Entry]bool{}
+		var walk func(e *yang.Entry, depth int)
+		walk = func(e *yang.Entry, depth int) {
+			if e == nil || seen[e] || depth > 40 {
+				return
+			}
+			seen[e] = true
+			_ = e.Path()
+			_ = e.Namespace()
+			e.InstantiatingModule()
+			_ = e.ReadOnly()
+			_ = e.DefaultValues()
+			if e.RPC != nil {
+				walk(e.Find("input"), depth+1)
+				walk(e.Find("output"), depth+1)
+			}
+			for _, ch := range e.Dir {
+				walk(ch, depth+1)
+			}
+		}
+		for _, mm := range []map[string]*yang.Module{ms.Modules, ms.SubModules} {
+			for _, m := range mm {
+				e := yang.ToEntry(m)
+				_ = e.GetErrors()
+				walk(e, 0)
+			}
+		}
+	}
+	switch c.Extra["runs"] {
+	case "pp":
+		ms.Process()
+	case "pcp":
+		ms.Process()
+		ms.ClearEntryCache()
+	case "prp":
+		ms.Process()
+		reads()
+	case "pctp":
+		ms.Process()
+		ms.ClearEntryCache()
+		reads()
+	case "pop":
+		ms.ParseOptions.IgnoreSubmoduleCircularDependencies = !c.IgnoreCircular
+		ms.ParseOptions.DeviateOptions.IgnoreDeviateNotSupported = !c.IgnoreNotSupported
+		ms.Process()
+		ms.ParseOptions.IgnoreSubmoduleCircularDependencies = c.IgnoreCircular
+		ms.ParseOptions.DeviateOptions.IgnoreDeviateNotSupported = c.IgnoreNotSupported
+		ms.AddPath("/nonexistent-rescorr-dir")
+	case "pgp":
+		ms.Process()
+		var names []string
+		for k := range ms.Modules {
+			names = append(names, k)
+		}
+		sort.Strings(names)
+		for _, k := range names {
+			ms.GetModule(k)
+		}
+		ms.ClearEntryCache()
+	}
+	return ms.Process()
+}
+
 // RunGo is the worker body for one case.
 func RunGo(c Case, hook Hook) GoOut {
 	if FromPath(c) {
@@ -288,7 +368,7 @@ func RunGo(c Case, hook Hook) GoOut {
 		out.ParseErr = err.Error()
 		return out
 	}
-	errs := ms.Process()
+	errs := ProcessRuns(c, ms)
 	out.Dump = lib.DumpOutcome(ms, errs)
 	if hook != nil {
 		hook(c, ms, errs, &out)
